@@ -21,6 +21,8 @@ mod c08;
 mod c15;
 mod schema;
 mod c16;
+mod c04;
+mod c04t;
 
 fn main() {
     let args: Vec<String> = std::env::args().collect();
@@ -58,6 +60,7 @@ fn main() {
         "C08" => c08::run(&mut sink, thorough, seed),
         "C15" => c15::run(&mut sink, thorough, seed),
         "C16" => c16::run(&mut sink, thorough, seed),
+        "C04" => c04::run(&mut sink, thorough, seed),
         "replay" => { /* replay lines are `op args…` on stdin */
             let mut s = String::new();
             use std::io::Read;
@@ -93,6 +96,7 @@ fn replay(sink: &mut common::Sink, toks: &[&str]) {
         "f64lit" | "f32lit" => c08::replay(sink, toks),
         "tov" | "tovagree" => c15::replay(sink, toks),
         "c16" => c16::replay(sink, toks),
+        "rtv" | "rtt" => c04::replay(sink, toks),
         _ => eprintln!("cannot replay op {}", toks[0]),
     }
 }
